@@ -29,7 +29,7 @@ CLOSURE_PRIMS = {"descendants", "dfs_preorder_nodes", "dfs_postorder_nodes", "df
 ONE_STEP = {"successors", "neighbors", "adj", "out_edges", "predecessors"}
 
 
-@rule("C06.R1", "C06", "WMC", "who writes input_keys; who calls on_clear_trace", min_instances=6)
+@rule("C06.R1", "C06", "WMC", "who writes input_keys; who calls on_clear_trace", min_instances=6, also=("C02",))
 def r1(ctx, R):
     """input_keys: added only in CellsImpl.set_value_from_key (top-level branch), removed only
     in on_clear_trace, assigned only in __init__; on_clear_trace is called only by
@@ -185,7 +185,7 @@ def r2(ctx, R):
 
 
 @rule("C06.R3", "C06", "DOM", "edit order in set_value_from_key: targets, clear, store, node, input, recompute",
-      min_instances=7)
+      min_instances=7, also=("C05",))
 def r3(ctx, R):
     """Top-level branch of CellsImpl.set_value_from_key: get_startnodes_from(node) (under the
     recalc option) precedes clear_value_at(key), which dominates _store_value(key, value),
@@ -272,6 +272,11 @@ def r3(ctx, R):
             R.bad(fi, l, "recalculation does not iterate over the computed targets")
         if marks and not q.dominated(fi, [stv], l):
             R.bad(fi, l, "dependents are recomputed before the new value is in place")
+        for what, cs in (("marked as input", marks), ("given its graph node", addn)):
+            if cs and not q.dominated(fi, [cs[0]], l):
+                R.bad(fi, l, "dependents are recomputed before the assigned value is %s: when a dependent raises on the "
+                             "new value the assignment stays but is no longer an input, and clear() or a reference "
+                             "change discards it" % what, stmt="recalc before " + what)
         c = [c for b in l.body for c in ast.walk(b) if isinstance(c, ast.Call) and call_name(c) == "get_value_from_key"][0]
         v = norm(l.target)
         if call_recv(c) != "%s[]" % v or [norm(a) for a in c.args] != ["%s[KEY]" % v]:
